@@ -57,7 +57,13 @@ def pump(cf):
 def connect_log(dev):
     """Real Crazyflie + SeqLink; runs the real platform-version and log-TOC handshake."""
     from cflib.crazyflie import Crazyflie, State
+    from cflib.crtp.crtpstack import CRTPPacket
     cf = Crazyflie()
+    # let the idle parameter-updater daemon thread of this object end (thousands of objects are built per run)
+    upd = cf.param.param_updater
+    upd._should_close = True
+    upd.request_queue.put(CRTPPacket())
+    upd.join(2.0)
     link = SeqLink(dev)
     cf.link = link
     cf.state = State.CONNECTED
